@@ -312,6 +312,33 @@ pub fn run(args: &Args) -> i32 {
     calendar(&mut cw);
     sun_grid(&mut cw, if args.tier == "thorough" { 0.5 } else { 4.0 }, &mut rng, args.n);
     radiation_identities(&mut cw);
+    tables_after_use(&mut cw);
     cw.finish();
     0
+}
+
+/// the embedded tables exist for every zone *after* the code has used them: indicators of models without windows, with windows
+/// without position, and of a shipped model are computed in several zones, then every zone must still have its 14 July-day hours
+/// and its 9 monthly rows
+fn tables_after_use(cw: &mut CaseWriter) {
+    use bemodel::climatedata::{ClimateZone, MONTHLYRADDATA};
+    let zones: Vec<ClimateZone> = CLIMATEMETADATA.lock().unwrap().keys().copied().collect();
+    let shipped = crate::corpus::real_models(false).into_iter().next().map(|(_, m)| m);
+    let mut computed = 0;
+    for z in &zones {
+        let mut empty = bemodel::Model::default();
+        empty.meta.climate = *z;
+        if std::panic::catch_unwind(std::panic::AssertUnwindSafe(|| empty.energy_indicators())).is_ok() {
+            computed += 1;
+        }
+        if let Some(m) = &shipped {
+            let mut m2 = m.clone();
+            m2.meta.climate = *z;
+            let _ = std::panic::catch_unwind(std::panic::AssertUnwindSafe(|| m2.energy_indicators()));
+        }
+    }
+    let july = JULYRADDATA.lock().map(|t| zones.iter().filter(|z| t.get(z).map_or(0, |r| r.len()) != 14).map(|z| format!("{z:?}")).collect::<Vec<_>>()).unwrap_or_else(|_| vec!["poisoned".into()]);
+    let monthly = MONTHLYRADDATA.lock().map(|t| zones.iter().filter(|z| t.iter().filter(|e| &e.zone == *z).count() != 9).map(|z| format!("{z:?}")).collect::<Vec<_>>()).unwrap_or_else(|_| vec!["poisoned".into()]);
+    cw.write(json!({"op": "noop", "label": "tables-after-use", "kind": "tables-after-use",
+        "impl": {"zones": zones.len(), "computations": computed, "zones_without_14_july_hours": july, "zones_without_9_monthly_rows": monthly}}));
 }
